@@ -47,7 +47,14 @@ func run(tier string) int {
 	for i := range order {
 		order[i] = i
 	}
-	sort.SliceStable(order, func(a, b int) bool { return len(scns[order[a]].Pods) > len(scns[order[b]].Pods) })
+	weight := func(sc *scenario) int {
+		groups := map[int]bool{}
+		for _, g := range sc.Part {
+			groups[g] = true
+		}
+		return len(sc.Pods) * 10 * min(len(groups), 3)
+	}
+	sort.SliceStable(order, func(a, b int) bool { return weight(scns[order[a]]) > weight(scns[order[b]]) })
 
 	if idx, n, isWorker := engine.WorkerShard(); isWorker {
 		budget := engine.NewBudget(110 * time.Second)
@@ -63,7 +70,10 @@ func run(tier string) int {
 				skipped++
 				continue
 			}
-			engine.Emit(explore(scns[si], kindIDOf(scns[si].Name), tier))
+			t0 := time.Now()
+			res := explore(scns[si], kindIDOf(scns[si].Name), tier, budget)
+			res.WallS = time.Since(t0).Seconds()
+			engine.Emit(res)
 			engine.FlushEmit()
 		}
 		engine.Emit(map[string]any{"worker_done": idx, "skipped": skipped})
@@ -171,6 +181,11 @@ func run(tier string) int {
 		}
 	}
 
+	if os.Getenv("VERIF_C18_TIMES") != "" {
+		for _, st := range all {
+			fmt.Fprintf(os.Stderr, "time %-40s %6.1fs states=%d transitions=%d\n", st.Scenario, st.WallS, st.States, st.Transitions)
+		}
+	}
 	kindList := []string{}
 	for k := range kindPGs {
 		kindList = append(kindList, k)
